@@ -556,6 +556,54 @@ fn exec_call_inner(ctx: &mut Ctx, idx: usize, c: &Value, keep: &mut Option<Owned
             v["handle_still_open"] = json!(still);
             v
         }
+        (_, "reopen_in_thread") => {
+            // the calling thread has its own descriptor table (unshare(CLONE_FILES)); the thread-group
+            // leader holds *other* files at the descriptor numbers the thread is about to get
+            let rootpath = s(c, "rootpath_abs").to_string();
+            let target = path.to_string();
+            let decoy = cs(s(c, "decoy"));
+            let fl = c["oflags"].as_i64().unwrap_or(0) as i32;
+            let (tx, rx) = std::sync::mpsc::channel::<()>();
+            let (tx2, rx2) = std::sync::mpsc::channel::<()>();
+            let th = std::thread::spawn(move || -> Value {
+                if unsafe { libc::unshare(libc::CLONE_FILES) } != 0 {
+                    return json!({"ok": false, "skip": "unshare(CLONE_FILES) failed"});
+                }
+                let _ = tx.send(());
+                let _ = rx2.recv();
+                let root = match Root::open(&rootpath) {
+                    Ok(r) => r,
+                    Err(e) => return kind_json(&e),
+                };
+                let h = match root.resolve(&target) {
+                    Ok(h) => h,
+                    Err(e) => return kind_json(&e),
+                };
+                let hv = describe_fd(h.as_fd().as_raw_fd());
+                let r = h.reopen(OpenFlags::from_bits_retain(fl));
+                let mut out = match r {
+                    Ok(f) => describe_fd(f.as_raw_fd()),
+                    Err(e) => kind_json(&e),
+                };
+                out["handle"] = hv;
+                out
+            });
+            let _ = rx.recv();
+            // occupy the numbers in the leader's table with decoys
+            let mut decoys = Vec::new();
+            for _ in 0..48 {
+                let fd = unsafe { libc::open(decoy.as_ptr(), libc::O_RDONLY | libc::O_CLOEXEC) };
+                if fd >= 0 {
+                    decoys.push(fd);
+                }
+            }
+            let _ = tx2.send(());
+            let out = th.join().unwrap_or(json!({"ok": false, "panic": "thread panicked"}));
+            for fd in decoys {
+                unsafe { libc::close(fd) };
+            }
+            out
+        }
         ("rust", "try_clone_root") => {
             let r = bracket!(ctx.root.as_ref().unwrap().try_clone());
             from_fd_result(r, keep)
